@@ -171,6 +171,24 @@ func ManageHAProxyEndpoints(haproxyEndpoints *HAProxyEndpointsRequest) error {
 	return nil
 }
 
+// EndpointsToUnmanage returns the endpoints of previous which current does not register anymore.
+// Endpoints are compared by their expression: both lists are rebuilt on every reload, so comparing
+// the pointers would report every previous endpoint as removed - including those still configured,
+// which would then be deleted from the proxy right after they were registered again.
+func EndpointsToUnmanage(previous, current []*HAProxyEndpointData) []*HAProxyEndpointData {
+	stillManaged := make(map[string]struct{}, len(current))
+	for _, endpoint := range current {
+		stillManaged[endpoint.Endpoint] = struct{}{}
+	}
+	toRemove := []*HAProxyEndpointData{}
+	for _, endpoint := range previous {
+		if _, found := stillManaged[endpoint.Endpoint]; !found {
+			toRemove = append(toRemove, endpoint)
+		}
+	}
+	return toRemove
+}
+
 func unmanageHAProxyEndpoints(unmanagedEndpoints []*HAProxyEndpointData) error {
 	for _, unmanagedEndpoint := range unmanagedEndpoints {
 		err := operateEndpoint(unmanagedEndpoint.Endpoint, http.MethodDelete, haproxyManagedEndpointURL)
